@@ -70,6 +70,27 @@ Theorem C19_long_read_write : forall mult l, unit_ok mult -> int64_ok l -> int64
 Proof. exact long_read_write. Qed.
 Print Assumptions C19_long_read_write.
 
+(* timestamp-millis and timestamp-micros over the whole range of the stored
+   long (beyond the instants int64 nanoseconds can hold): every int64 decodes
+   to the instant l * unit exactly, is written back as l, and every time whose
+   floored unit count fits a long is stored as that count and decodes to it *)
+Theorem C19_timestamp_whole_range : forall mult, ts_unit mult ->
+  (forall fuel dest l rest, int64_ok l ->
+     c_read fuel (CTimeLong mult) dest (int_write l ++ rest) = Done (VTime (time_of_units mult l)) rest) /\
+  (forall l, tv_wf (time_of_units mult l) /\ instant_ns (time_of_units mult l) = l * mult) /\
+  (forall l, int64_ok l -> c_write (CTimeLong mult) (VTime (time_of_units mult l)) = Some (int_write l)) /\
+  (forall fuel dest t rest, tv_wf t -> int64_ok (instant_ns t / mult) ->
+     exists bs, c_write (CTimeLong mult) (VTime t) = Some bs /\ bs = int_write (instant_ns t / mult) /\
+       c_read fuel (CTimeLong mult) dest (bs ++ rest) = Done (VTime (time_of_units mult (instant_ns t / mult))) rest).
+Proof.
+  intros mult Hu. refine (conj _ (conj _ (conj _ _))).
+  - intros. apply long_read_wide. assumption.
+  - intros. apply time_of_units_wf. exact Hu.
+  - intros. apply long_read_write_wide; assumption.
+  - intros. apply long_write_read_wide; assumption.
+Qed.
+Print Assumptions C19_timestamp_whole_range.
+
 (* non-vacuity *)
 Example C19_ex_read :
   c_read 0 CDate VBad (int_write (-1)) = Done (VTime (TV (-86400) 0 0)) [] /\
